@@ -18,6 +18,11 @@ evidence histogram):
   `F` / `G` with a per-peer verdict (peer flag `a` = accepted; the old nodes' enabled-ness is not cleared).
   Output: the observation after every step plus `arms=` (per peer the arm of the node-reuse match) and `pool=` (per peer
   whether its node object has a connection pool), joined by ` / `.
+* `d… <n> (<mode> <topology> <keyspaces>)×n <strategy> <dc|-> <token>` — a history as `h…` in which a host id MAY be
+  listed more than once in one peer list (rows with one id must agree on datacenter, rack and flags; anything else is
+  `bad-case`): every row gets its own node object, all in the ring, `known_nodes` keeps the last.  `arms=` / `pool=`
+  describe, per row, the object `known_nodes` holds for the row's host id.  Two more fields per step: `ring=` the ring
+  entries in ring order as `id@address`, `known=` the known nodes by ascending id as `id@address`.
 * `p <L|P> <row>` — one `system.local` / `system.peers` row → `Peer` (checker for the random dummy token).
 * `v <token counts|->` — `validate_peers`.
 * `s <options>` — replication option map → `Strategy`.
@@ -59,6 +64,23 @@ def addrOf (flags : String) (pos : Nat) : Nat :=
   | _ :: d :: _ => if '0' ≤ d ∧ d ≤ '9' then 200 + (d.toNat - 48) else pos
   | _ => pos
 
+/-- Peers with flags, repeated host ids allowed when the rows agree on datacenter, rack and flags (`d` cases). -/
+def parseTopologyRep (s : String) : Option (List (Peer × String)) :=
+  if s == "-" then some []
+  else match (s.splitOn ";").mapM parsePeerEx with
+    | none => none
+    | some ps =>
+      if ps.all (fun p => p.1.tokens.all i64ok) &&
+          ps.all (fun p => ps.all (fun q => p.1.node.id != q.1.node.id || (p.1.node == q.1.node && p.2 == q.2)))
+      then some ps else none
+
+/-- The last row of the list with the host id of `p` (`p` itself when ids are distinct): the row whose node object
+`known_nodes` holds. -/
+def lastRow (peers : List MPeer) (p : MPeer) : MPeer :=
+  (peers.reverse.find? (fun q => decide (q.node.id = p.node.id))).getD p
+
+def idAt (k : KNode) : String := s!"{k.node.id}@{k.addr}"
+
 def armLetter : Arm → Char
   | .reused => 'c'
   | .inherited => 'i'
@@ -67,14 +89,13 @@ def armLetter : Arm → Char
 /-- History steps through the model of `calculate_new_topology` / `resolve_metadata_keyspaces` (`Model/Refresh.lean`);
 the rejecting hooks clear `is_enabled` before a refresh, all hooks set it afterwards from the specs (flag `d` =
 disabled).  `last` = index of the last keyspace of the most recent keyspace list. -/
-def runHistory (strat : Strategy) (dc : Option Nat) (tok : Int) :
+def runHistory (rep : Bool) (strat : Strategy) (dc : Option Nat) (tok : Int) :
     List String → Option CState → Nat → List String → Option (List String)
   | [], _, _, acc => some acc.reverse
   | mode :: topo :: pre :: rest, st, last, acc =>
-    match parseTopologyEx topo with
+    match (if rep then parseTopologyRep topo else parseTopologyEx topo) with
     | none => none
     | some tx =>
-      let t : Topology := tx.map (·.1)
       -- the host filter's verdict: nobody (r, t), everybody (R, T), the peers flagged `a` (F, G)
       let peers : List MPeer := (tx.zipIdx).map (fun (p, i) =>
         ⟨p.1.node, addrOf p.2 i, p.1.tokens, mode == "R" || mode == "T" || ((mode == "F" || mode == "G") && p.2.contains 'a')⟩)
@@ -99,13 +120,21 @@ def runHistory (strat : Strategy) (dc : Option Nat) (tok : Int) :
         | none => none
         | some (st', last') =>
           let st' := st'.setEnabled ids
-          let arms := String.ofList (peers.map (fun p => armLetter (pickArm b.known p)))
+          -- observed through `known_nodes.get(host id)`: the object of the LAST row with that id
+          let arms := String.ofList (peers.map (fun p => armLetter (pickArm b.known (lastRow peers p))))
           let arms := if arms.isEmpty then "-" else arms
           -- the real pool presence of every node object (`pool.is_some()`, not the override)
-          let pools := String.ofList (peers.map (fun p => if (pickNode b.known p).pool then '1' else '0'))
+          let pools := String.ofList (peers.map (fun p => if (pickNode b.known (lastRow peers p)).pool then '1' else '0'))
           let pools := if pools.isEmpty then "-" else pools
-          runHistory strat dc tok rest (some st') last'
-            ((observeLine st'.loc st'.keyspaces last' strat dc tok ++ " arms=" ++ arms ++ " pool=" ++ pools) :: acc)
+          let extra :=
+            if !rep then "" else
+              let ring := mkRing (peers.flatMap (fun p => p.tokens.map (fun tk => (tokenNew tk, pickNode b.known p))))
+              let ids := ((peers.map (·.node.id)).eraseDups).mergeSort (fun a b => decide (a ≤ b))
+              let known := ids.filterMap (fun i => (lookupKnown st'.known i).map idAt)
+              let show_ (l : List String) : String := if l.isEmpty then "-" else ",".intercalate l
+              " ring=" ++ show_ (ring.map (fun e => idAt e.2)) ++ " known=" ++ show_ known
+          runHistory rep strat dc tok rest (some st') last'
+            ((observeLine st'.loc st'.keyspaces last' strat dc tok ++ " arms=" ++ arms ++ " pool=" ++ pools ++ extra) :: acc)
   | _, _, _, _ => none
 
 /-- `dummies=<id>:<token>,…` at the head of the implementation's line of an `m` case. -/
@@ -168,7 +197,7 @@ def run (case impl : String) : String :=
           observeLine st.loc st.keyspaces (pre.length - 1) strat dc (tokenNew tok)
         | _, _, _, _, _ => "bad-case"
       | _ => "bad-case"
-    else if k.startsWith "h" then
+    else if k.startsWith "h" || k.startsWith "d" then
       match args with
       | n :: rest =>
         match n.toNat? with
@@ -180,7 +209,7 @@ def run (case impl : String) : String :=
             match parseStrategy strat, parseOptNat dc, tok.toInt? with
             | some strat, some dc, some tok =>
               if !i64ok tok then "bad-case" else
-              match runHistory strat dc (tokenNew tok) (rest.take (3 * n)) none 0 [] with
+              match runHistory (k.startsWith "d") strat dc (tokenNew tok) (rest.take (3 * n)) none 0 [] with
               | some lines => " / ".intercalate lines
               | none => "bad-case"
             | _, _, _ => "bad-case"
